@@ -1,5 +1,22 @@
 """Human-written level texts for MANIFEST.json."""
 META = {
+    "C07": dict(
+        text="Proof: in the Lean model of recoverSingleEvent/processError a delivered record is emitted exactly when it lies in [from,to) of the partition's "
+             "active window, once, flagged, for one limiter token (recover_emits, recover_tokens); main-consumer events are never flagged (flags); the first "
+             "record at/after 'to' completes and broadcasts (completes_at_end, complete_removes); an uninterrupted reader emits exactly the remaining window "
+             "for every window length (window_run, induction); truncation restarts from the low watermark or closes (truncation_one). "
+             "Tied to the Go code by differential runs of the real RecoveryConsumer over a scripted cursor client, judged by an independent Spec monitor.",
+        note="Trusted: Lean kernel, model transcription, scripted Kafka cursor client, JSON codec, harness/driver. Found and repaired through this check: "
+             "F5 (window was (from,to]) and F10 (stale in-memory progress applied to a different request).",
+    ),
+    "C09": dict(
+        text="Proof: RefreshAssignments makes the client read exactly owned x outstanding (candidates_char, refresh_effect), revocation empties the active set so "
+             "nothing is emitted afterwards (revoke_stops, revoke_then_silent), a successor without in-memory state resumes exactly at the replicated progress "
+             "point (successor_resumes, crash_state) and old and new owner together emit exactly the window (crash_union, crash_union_model). "
+             "Tied to the Go code by two-incarnation histories with crash points drawn over the whole op list.",
+        note="Trusted as C07, plus the harness's replay of the recorded message log into the successor (C08 gives the Lean side). The 10 s refresh period is "
+             "represented by explicit 'refresh' operations; the wall-clock period itself is not verified.",
+    ),
     "C20": dict(
         text="Proof: overlay laws for every parameter map (each librdkafka.-prefixed parameter reaches the client configuration verbatim under the "
              "stripped key and wins over the default; unprefixed parameters never change it: overlay_top, overlay_sub, overlay_ignores_unprefixed, "
